@@ -188,7 +188,10 @@ def run(chk, replay=None):
     res_dev2 = tlc.run("CacheFS_MC", MC_CFG.format(calls=2, crashes=0, dev="DevCheckThenMkdir", invs="INVARIANT NeverRaises\n"), workers=4, timeout=600)
     if res_dev2.ok:
         raise Machinery("model is insensitive: deviation CheckThenMkdir does not violate NeverRaises")
-    chk.part("deviation_sensitivity", violated=res_dev.violated, states=res_dev.distinct, CheckThenMkdir=res_dev2.violated)
+    res_dev3 = tlc.run("CacheFS_MC", MC_CFG.format(calls=3, crashes=0, dev="DevProcessMemo", invs="INVARIANT ReturnsDoit\n"), workers=4, timeout=600)
+    if res_dev3.ok:
+        raise Machinery("model is insensitive: deviation ProcessMemo does not violate ReturnsDoit")
+    chk.part("deviation_sensitivity", violated=res_dev.violated, states=res_dev.distinct, CheckThenMkdir=res_dev2.violated, ProcessMemo=res_dev3.violated)
 
     # 1c. unbounded in the length of the history: an inductive invariant of the design (Apalache), thorough tier
     if tier == "thorough":
